@@ -13,7 +13,7 @@ use mul::BoxedMontyMultiplier;
 
 use crate::{BoxedUint, Limb, Monty, Odd, Word};
 use alloc::sync::Arc;
-use subtle::Choice;
+use subtle::{Choice, ConstantTimeLess};
 
 #[cfg(feature = "zeroize")]
 use zeroize::Zeroize;
@@ -48,9 +48,11 @@ impl BoxedMontyParams {
 
         // `R mod modulus` where `R = 2^BITS`.
         // Represents 1 in Montgomery form.
-        let one = BoxedUint::max(bits_precision)
+        let mut one = BoxedUint::max(bits_precision)
             .rem(modulus.as_nz_ref())
             .wrapping_add(&BoxedUint::one());
+        // `one` is in `1..=modulus`; it equals the modulus only for modulus 1
+        one.conditional_sbb_assign(&modulus, !one.ct_lt(&modulus));
 
         // `R^2 mod modulus`, used to convert integers to Montgomery form.
         let r2 = one
@@ -91,9 +93,11 @@ impl BoxedMontyParams {
 
         // `R mod modulus` where `R = 2^BITS`.
         // Represents 1 in Montgomery form.
-        let one = BoxedUint::max(bits_precision)
+        let mut one = BoxedUint::max(bits_precision)
             .rem_vartime(modulus.as_nz_ref())
             .wrapping_add(&BoxedUint::one());
+        // `one` is in `1..=modulus`; it equals the modulus only for modulus 1
+        one.conditional_sbb_assign(&modulus, !one.ct_lt(&modulus));
 
         // `R^2 mod modulus`, used to convert integers to Montgomery form.
         let r2 = one
